@@ -518,6 +518,21 @@ func (e *SpecEnv) binary(n *ast.BinaryExpr) TV {
 		}
 		return TV{T: e.vc.fpArith(op, a.T, b.T, e.vc.sortOf(a.Ty)), Ty: a.Ty}
 	}
+	if a.Ty != nil && e.vc.sortOf(a.Ty) == "Str" {
+		// string order: the same uninterpreted order symbol the code's comparisons use
+		switch n.Op {
+		case token.LSS:
+			return TV{T: fmt.Sprintf("(str_lt %s %s)", a.T, b.T), Ty: tBool}
+		case token.GTR:
+			return TV{T: fmt.Sprintf("(str_lt %s %s)", b.T, a.T), Ty: tBool}
+		case token.LEQ:
+			return TV{T: fmt.Sprintf("(not (str_lt %s %s))", b.T, a.T), Ty: tBool}
+		case token.GEQ:
+			return TV{T: fmt.Sprintf("(not (str_lt %s %s))", a.T, b.T), Ty: tBool}
+		case token.ADD:
+			return TV{T: fmt.Sprintf("(str_concat %s %s)", a.T, b.T), Ty: a.Ty}
+		}
+	}
 	if e.vc.sortOf(a.Ty) == sRef {
 		// Ref arithmetic/comparison (allocation order)
 		ops := map[token.Token]string{token.LSS: "<", token.LEQ: "<=", token.GTR: ">", token.GEQ: ">="}
